@@ -6,7 +6,7 @@ import check
 
 def main():
     name = sys.argv[1]
-    canary = '--canary' in sys.argv
+    canary = '--no-canary' not in sys.argv  # canaries on by default: the canary variant goes through its own extraction and can fail where the plain one does not
     ur = check.process_unit(name, canary, os.path.join(check.BUILD, 'dev'))
     print('status', ur.status, 'groups', len(ur.groups or {}), 'wall %.1fs' % ur.wall, 'verified', getattr(ur, 'verified', None))
     if ur.status != 'ok':
